@@ -267,6 +267,10 @@ static void one_topology(hwloc_topology_t t)
     if (__builtin_popcountll(PU) <= 8) { uint64_t s = 0; do { check_sets(t, s); s = (s - PU) & PU; } while (s); }
     else { for (unsigned i = 0; i < NO; i++) if (CS[i]) { check_sets(t, CS[i]); check_sets(t, PU & ~CS[i]); for (unsigned j = i + 1; j < NO; j += 3) if (CS[j]) check_sets(t, CS[i] | CS[j]); } check_sets(t, 0); }
     check_sets(t, PU | (1ULL << 62)); check_sets(t, 1ULL << 62); check_sets(t, (PU & -PU) | (1ULL << 61));
+    /* positions that exist in the complete cpuset only (disallowed or offline PUs): outside the root's cpuset like any other
+     * foreign bit (seeded change C09-largest-objs-complete tested the complete cpuset at the entry of largest_objs_inside) */
+    { uint64_t cpl = ops_bitmap_to_mask(hwloc_topology_get_complete_cpuset(t)) & ~PU;
+      for (int b = 0; b < 64; b++) if (cpl & (1ULL << b)) { check_sets(t, 1ULL << b); check_sets(t, PU | (1ULL << b)); check_sets(t, (PU & -PU) | (1ULL << b)); mc_count("complete_only_positions_queried", 1); } }
     if (__builtin_popcountll(NUMA) <= 8) { uint64_t s = 0; do { check_nodesets(t, s); s = (s - NUMA) & NUMA; } while (s); }
     check_nodesets(t, NUMA | (1ULL << 60));
     check_objects(t);
